@@ -546,6 +546,38 @@ theorem gfilter_data (g : Graph κ C) (s : Sel κ) (flag : Bool) :
 theorem gfilter_map {D : Type} (f : C → D) (g : Graph κ C) (s : Sel κ) (flag : Bool) :
     gfilter (g.map f) s flag = (gfilter g s flag).map f := rfl
 
+/-! filtering is idempotent: filtering a filtered graph again with the same selection changes nothing (keys, order and data) -/
+
+theorem gfilter_idem_vertices (g : Graph κ C) (s : Sel κ) (flag : Bool) :
+    (gfilter (gfilter g s flag) s flag).vkeys = (gfilter g s flag).vkeys := by
+  simp [gfilter, List.filter_filter]
+
+theorem gfilter_idem_edges (g : Graph κ C) (hc : g.Closed) (s : Sel κ) (flag : Bool) :
+    (gfilter (gfilter g s flag) s flag).ekeys = (gfilter g s flag).ekeys := by
+  have hcl := gfilter_closed g hc s flag
+  show List.filter _ (gfilter g s flag).ekeys = _
+  rw [List.filter_eq_self]
+  rintro ⟨a, b⟩ hx
+  have hmem : (a, b) ∈ (gfilter (gfilter g s flag) s flag).ekeys := by
+    cases flag
+    · rw [gfilter_edges_false_closed _ hcl]
+      have := (gfilter_edges_false_closed g hc s a b).mp hx
+      exact ⟨hx, this.2.1, this.2.2⟩
+    · rw [gfilter_edges_true]
+      have := (gfilter_edges_true g s a b).mp hx
+      exact ⟨hx, this.2.1, this.2.2.1, this.2.2.2⟩
+  exact (List.mem_filter.mp hmem).2
+
+theorem gfilter_idem (g : Graph κ C) (hc : g.Closed) (s : Sel κ) (flag : Bool) :
+    gfilter (gfilter g s flag) s flag = gfilter g s flag := by
+  have h1 := gfilter_idem_vertices g s flag
+  have h2 := gfilter_idem_edges g hc s flag
+  have hv : (gfilter (gfilter g s flag) s flag).v = (gfilter g s flag).v := rfl
+  have he : (gfilter (gfilter g s flag) s flag).e = (gfilter g s flag).e := rfl
+  cases hA : gfilter (gfilter g s flag) s flag
+  cases hB : gfilter g s flag
+  simp_all
+
 end Filter
 
 
